@@ -66,12 +66,12 @@ Universe == { <<t, v>> : t \in Types, v \in UNION { Vals(u) : u \in Types } }
 Cases == { c \in Universe : c[2] \in Vals(c[1]) }
 ChoiceStreams == { <<0>>, <<1, 1>>, <<2, 1, 4, 0>>, <<1, 0, 1, 1, 1, 0>> }
 
-VARIABLE c
-Init == c \in Cases
-Next == UNCHANGED c
+VARIABLE ucase
+Init == ucase \in Cases
+Next == UNCHANGED ucase
 
-t == c[1]
-v == c[2]
+t == ucase[1]
+v == ucase[2]
 enc == Encode(t, v, EmptyFn, Opts0)
 nrm == Norm(t, v, EmptyFn, Opts0)
 Dom == Conforms(t, v, EmptyFn, Opts0) /\ enc.ok /\ nrm.ok
